@@ -31,7 +31,7 @@ PROP = "C20"
 FLAGS = ["q_missing_by_raw_key", "q_append_to_flow_root", "q_insert_mid_entry", "q_cli_raw_key"]
 INIT_FLAGS = FLAGS[:3]
 HEADER = ("From TL Require Import Lib.Base Lib.GenTypes Model.CfgTypes Gen.CfgToolGen Model.CfgMerge Model.CfgCli "
-          "Model.CfgToolRun Model.CfgLoc Model.CfgPath Actual.CfgToolActual.\nFrom Coq Require Import ZArith.\nOpen Scope Z_scope.\nOpen Scope nat_scope.\n")
+          "Model.CfgToolRun Model.CfgLoc Model.CfgPath Model.CfgEntry Actual.CfgToolActual.\nFrom Coq Require Import ZArith.\nOpen Scope Z_scope.\nOpen Scope nat_scope.\n")
 BIT_NAMES = ["valid_yaml", "old_lines_preserved", "settings_in_effect", "only_missing_added", "all_missing_added",
              "added_sections_carry_template", "second_run_changes_nothing"]
 MARK1 = "# " + "=" * 76
@@ -395,8 +395,73 @@ def gen_init_case(seed, i):
             at = 2
         d["lines"][at:at] = [r.choice(["this line is not yaml", "[unclosed", "} stray"])]
         text, marker, kind = "\n".join(d["lines"]) + "\n", "none", "invalid"
-    return {"stream": "init", "i": i, "kind": kind, "marker": marker, "preset": r.choice(PRESETS), "text": text,
+    case = {"stream": "init", "i": i, "kind": kind, "marker": marker, "preset": r.choice(PRESETS), "text": text,
             "via": "cli" if r.random() < 0.1 else "api"}
+    r2 = rng_for(seed, PROP, "init-entry", i)     # separate chain: the files of the stream stay what they were
+    if r2.random() < 0.3:
+        set_prompt_entry(r2, case)
+    return case
+
+
+def gen_answers(r, default):
+    """what the user types at the `Choose preset` prompt: plain Enter (= the default), a preset name, or an answer that is no
+    preset (asked again) followed by one of these; returns (stdin text, preset the documented prompt ends up with)"""
+    k = r.random()
+    bad = r.choice(["bogus", "STRICT", "1", "strictest", "y"])
+    name = r.choice(PRESETS)
+    if k < 0.3:
+        return "\n", default
+    if k < 0.65:
+        return name + "\n", name
+    if k < 0.85:
+        return bad + "\n" + name + "\n", name
+    return bad + "\n\n", default
+
+
+def set_prompt_entry(r, case):
+    """interactive entry point: no --non-interactive, --preset only sets the default of the prompt, the answers come on stdin"""
+    case["default"] = case["preset"]
+    case["answers"], case["preset"] = gen_answers(r, case["default"])
+    case["via"] = "api"
+
+
+def entry_preset_term(case):
+    """the preset as the MODEL's entry point chooses it (Model/CfgEntry.v) - the Python side uses the documented choice"""
+    if case.get("answers") is None:
+        return cs(case["preset"])
+    ans = coq.coq_list([cs(a) for a in case["answers"].split("\n")[:-1]])
+    return f"(entry_preset_or false {cs(case['default'])} {ans})"
+
+
+def gen_entry_case(seed, i):
+    """--force over an existing file / no file yet, entered with the flag or through the prompt: a fresh file is written"""
+    r = rng_for(seed, PROP, "entry", i)
+    case = {"stream": "entry", "i": i, "preset": r.choice(PRESETS), "force": r.random() < 0.6,
+            "existing": r.choice([None, "nesting:\n  enabled: false\n", "[broken\n", "", "magic_numbers: {allowed_numbers: [4242]}\n# mine\n"])}
+    if case["existing"] is not None:
+        case["force"] = True
+    if r.random() < 0.6:
+        set_prompt_entry(r, case)
+    return case
+
+
+def run_entry(case):
+    m = impl()
+    with scratch_dir("tv-c20e-") as d:
+        f = d / ".thailint.yaml"
+        if case["existing"] is not None:
+            f.write_text(case["existing"])
+        args = ["init-config", "--output", str(f)] + (["--force"] if case["force"] else [])
+        if case.get("answers") is None:
+            args += ["--non-interactive", "--preset", case["preset"]]
+            rr = m["runner"]().invoke(m["cli"], args)
+        else:
+            args += ["--preset", case["default"]]
+            rr = m["runner"]().invoke(m["cli"], args, input=case["answers"])
+        err = ""
+        if rr.exception is not None and not isinstance(rr.exception, SystemExit):
+            err = "EXC " + repr(rr.exception)
+        return {"rc": rr.exit_code, "out": rr.output[-400:], "err": err, "text": f.read_text() if f.exists() else None}
 
 
 # ------------------------------------------------------------------ running init-config
@@ -410,7 +475,10 @@ def run_init(case):
                 rc, so, se = run_cli(["init-config", "--non-interactive", "--preset", case["preset"]], cwd=d, home=d)
             else:
                 m = impl()
-                rr = m["runner"]().invoke(m["cli"], ["init-config", "--non-interactive", "--preset", case["preset"], "--output", str(f)])
+                if case.get("answers") is None:
+                    rr = m["runner"]().invoke(m["cli"], ["init-config", "--non-interactive", "--preset", case["preset"], "--output", str(f)])
+                else:
+                    rr = m["runner"]().invoke(m["cli"], ["init-config", "--preset", case["default"], "--output", str(f)], input=case["answers"])
                 rc, so, se = rr.exit_code, rr.output, ""
                 if rr.exception is not None and not isinstance(rr.exception, SystemExit):
                     se = "EXC " + repr(rr.exception)
@@ -514,7 +582,7 @@ def coq_init(case, res):
     if r2n == "R2":
         lets.append(f"let R2 := {clines(R2)} in")
     names = coq.coq_list([cs(n) for n in res[0]["names"]])
-    return (" ".join(lets) + f" judge_init cfgtool_actual {cs(case['preset'])} E {res[0]['rc'] % 256} {names} {rn} "
+    return (" ".join(lets) + f" judge_init cfgtool_actual {entry_preset_term(case)} E {res[0]['rc'] % 256} {names} {rn} "
             f"{res[1]['rc'] % 256} {r2n}")
 
 
@@ -1309,6 +1377,8 @@ def _dispatch(case):
         return run_mfn(case)
     if s == "loc":
         return run_loc(case)
+    if s == "entry":
+        return run_entry(case)
     raise ValueError(s)
 
 
@@ -1332,7 +1402,7 @@ def run(tier: str, seed: int, replay: str | None = None) -> int:
         "init: seeded existing .thailint.yaml files (block documents with any subset of linter sections in hyphen/underscore spelling, extra keys, "
         "comments, blank lines, `---`, quoted keys, inline/flow/block values, block scalars (nested and top-level, with blank and `#` content lines; files ending inside a keep-chomped / space-ended block scalar), column-0 sequences, trailing-whitespace variants, the GLOBAL SETTINGS banner at an entry "
         "boundary / at position 0 / inside an entry / mid-line / before `---` / as decoy; edited copies of generated files; flow-style roots; roots indented as a whole; empty and "
-        "invalid files) x preset, `init-config --non-interactive` run twice; non-trivial = a valid file with at least one entry from which at least "
+        "invalid files) x preset x entry point (`--non-interactive --preset p`, or the interactive prompt answered on stdin: plain Enter = default, a preset name, an answer that is no preset followed by a valid one), `init-config` run twice; plus --force / no-file runs through both entry points (fresh file); non-trivial = a valid file with at least one entry from which at least "
         "one section is missing.  hist: histories of 3-9 config set/get/reset commands on ./config.yaml (real CLI) or --config x.yaml / x.json over an absent / valid / "
         "invalid / hyphen-keyed file, values drawn per key from valid, invalid and re-typed texts, PLUS a deterministic boundary stream: for every validated key "
         "(timeout, max_retries, log_level, output_format, app_name) every boundary text (bound-1, bound, bound+1 as int and float text, signed zeros, very large, "
@@ -1389,6 +1459,7 @@ def run(tier: str, seed: int, replay: str | None = None) -> int:
             cases += [gen_mfn_case(seed, i) for i in range(n_mfn)]
             cases += [gen_loc_case(seed, i) for i in range(n_loc)]
             cases += [gen_path_case(seed, i) for i in range(n_path)]
+            cases += [gen_entry_case(seed, i) for i in range(int((30 if quick else 300) * scale))]
         results = pool_map(_dispatch, cases, procs=procs)
         conv_texts = [] if replay else gen_conv_texts(seed, n_conv)
         conv_vals = [run_conv(t) for t in conv_texts]
@@ -1426,6 +1497,10 @@ def run(tier: str, seed: int, replay: str | None = None) -> int:
                 if t is None:
                     continue
                 terms.append(t)
+            elif s == "entry":
+                if res["text"] is None:
+                    continue
+                terms.append(f"judge_fresh {entry_preset_term(case)} {clines(res['text'])}")
             owners.append(idx)
         conv_idx = []
         for j, (t, v) in enumerate(zip(conv_texts, conv_vals)):
@@ -1478,6 +1553,8 @@ def run(tier: str, seed: int, replay: str | None = None) -> int:
             hist_cands = decide_hist(chk, case, res, ver, hist_cands)
         elif s == "loc":
             loc_cands = decide_loc(chk, case, res, ver, loc_cands)
+        elif s == "entry":
+            decide_entry(chk, case, res, ver)
         elif s in ("xtr", "mfn"):
             chk.dist("stream:" + s)
             chk.count([s, case["lines"] if s == "xtr" else [case["text"], case["texts"]]], True)   # an xtr case may have no line at all
@@ -1527,6 +1604,28 @@ def run(tier: str, seed: int, replay: str | None = None) -> int:
     return chk.finish()
 
 
+def decide_entry(chk, case, res, ver):
+    """--force / no file yet: whatever the entry point, the file must be the generated file of the chosen preset"""
+    how = "prompt" if case.get("answers") is not None else "flag"
+    chk.dist("stream:entry")
+    chk.dist(f"entry:{how}/{'force' if case['force'] else 'no-force'}/{'file' if case['existing'] is not None else 'no-file'}")
+    chk.count(["entry", case.get("default"), case.get("answers"), case["preset"], case["force"], case["existing"]], how == "prompt")
+    info = {"case": case, "exit": res["rc"], "stdout": res["out"], "text_head": (res["text"] or "")[:300]}
+    if res["err"].startswith("EXC"):
+        chk.violation({"reason": "init-config crashed", "detail": res["err"], **info})
+        return
+    want = template_text(case["preset"])
+    if res["rc"] != 0 or res["text"] != want or yroot(res["text"]) is None:
+        chk.violation({"reason": f"init-config ({how}, force={case['force']}) did not write the generated file of preset {case['preset']} (exit {res['rc']})", **info})
+        return
+    if ver is None:
+        return
+    chk.traces_validated += 1
+    if not (bool(ver[0]) and bool(ver[1])):
+        chk.correspondence_broken({"level": "observable", "detail": "fresh file: the text written is not the model's gen_content for the preset the model's entry point "
+                                                                    "(Model/CfgEntry.v: flag or prompt) chooses", **info})
+
+
 def note_cands(chk, what, cands, names):
     if cands is not None and not cands[0]:
         alt = [i for i, ok in enumerate(cands) if ok]
@@ -1549,6 +1648,7 @@ def decide_init(chk, case, res, ver, cands_all):
     chk.dist("init.kind:" + case["kind"])
     chk.dist("init.marker:" + case["marker"])
     chk.dist("init.via:" + case["via"])
+    chk.dist("init.entry:" + ("prompt" if case.get("answers") is not None else "flag"))
     chk.dist("init.preset:" + case["preset"])
     chk.dist("init.outcome:" + ("rc%d" % res[0]["rc"]) + ("/rewritten" if changed else "/untouched"))
     chk.sample({"stream": "init", "preset": case["preset"], "existing": E[:400], "exit": res[0]["rc"], "added": res[0]["names"],
